@@ -30,7 +30,8 @@ RULE = (
     "every step: all five responses equal the response of a freshly cooked engine with query_cache_decorator=None (re-cooked at every step "
     "in the thorough tier; once per distinct request in the quick tier; the str and bytes spellings of one text are one request). For every "
     "invalid document, and for every request of a quarter of the histories (all in the thorough tier), the reference is instead a fresh "
-    "cache-less engine in a process that never served anything (forked from a zygote, tfv/pristine.py). Distinct = SHA-1 of (pool, history prefix); non-trivial = the "
+    "cache-less engine in a process that never served anything (forked from a zygote, tfv/pristine.py). The argument dictionaries "
+    "handed to resolvers are modified in place after every request. Distinct = SHA-1 of (pool, history prefix); non-trivial = the "
     "step re-sends a request whose text was evicted from a small cache since its last use, or re-sends an invalid/broken document."
 )
 ASSUMPTIONS = ["quick tier: the oracle is the first answer of one cache-less engine per history, memoised per distinct request; thorough re-cooks a fresh cache-less engine at every step"]
@@ -83,7 +84,7 @@ def build_pool(c, schema, plan):
     target = max(len(pool) + 2, c.int(6, 10))
     while len(pool) < target:
         r0, spec, ex = c.choice(base)
-        kind = c.weighted([(3, "invalid"), (2, "syntax"), (5, "other_vars"), (2, "bytes"), (2, "faulty"), (1, "other_op"), (2, "introspection"), (2, "typo_in_variable")])
+        kind = c.weighted([(3, "invalid"), (2, "syntax"), (5, "other_vars"), (2, "bytes"), (2, "faulty"), (1, "other_op"), (2, "introspection"), (4, "typo_in_variable")])
         if kind == "introspection":
             ir = c15.introspection_request(c, schema, dict(r0, doc=spec["doc"]))
             r = copy.deepcopy(r0)
@@ -97,9 +98,11 @@ def build_pool(c, schema, plan):
             cands = [v for v in op.get("vars") or () if schema["types"].get(v["type"].strip("[]!"), {}).get("kind") == "INPUT"]
             if not cands:
                 continue
-            v = cands[c.int(0, len(cands) - 1)]
+            # prefer an input type with >= 3 fields: a one-letter prefix is then close to all of them (>= 3 suggestions)
+            rich = [v for v in cands if len(schema["types"][v["type"].strip("[]!")]["fields"]) >= 3]
+            v = c.choice(rich) if rich and c.maybe(70) else cands[c.int(0, len(cands) - 1)]
             fields = list(schema["types"][v["type"].strip("[]!")]["fields"])
-            typo = c.choice([fields[0][:-1], fields[0] + "x", "f"])
+            typo = c.weighted([(2, fields[0][:-1]), (1, fields[0] + "x"), (2, "f")])
             val = {typo: 1}
             for _ in range(v["type"].count("[")):
                 val = [val]
@@ -166,6 +169,7 @@ def send(h, schema, r):
     resp = run_async(go())
     out = canon(core.jsonable(resp))
     core.scribble(resp, "c16")
+    h.scramble_live()  # the argument dictionaries this request's resolvers received are modified in place afterwards
     return out
 
 
@@ -260,6 +264,7 @@ class CacheMachine(RuleBasedStateMachine):
         schema, plan = c01.build_schema(c, {"max_inputs": 3})
         if c.maybe(25):
             schema["schema_dirs"] = [{"name": "nonIntrospectable", "args": []}]
+        plan["scramble_args"] = True
         pool = build_pool(c, schema, plan)
         # quick tier: the default LRU, the 1-slot LRU (evictions) and one more configuration; thorough: all five
         caches = CACHES if _STATS["tier"] == "thorough" else ["default", "lru1", c.choice(["lru2", "dict", "none"])]
